@@ -107,6 +107,30 @@ PROPS = {
             "iso": {"bin": "verifh", "run": "TestC12Iso", "checks": {"quick": 300, "thorough": 32000}, "shards": {"quick": 4, "thorough": 16}},
         },
     },
+    "C11": {
+        "level": "exploration",
+        "level_text": "Round-trip and differential testing of parseBody and Proof.Marshal/Unmarshal: generated triples written by two writers must parse back exactly; 21 classes of bodies malformed by construction must be refused with zero data; generated byte strings are compared with a strict reference parser written from the c2sp text; proofs of 0-64 hashes of 0-64 bytes round-trip in both directions. Native fuzzing of both parsers in the thorough tier.",
+        "level_note": "Tolerance region where the code may be more lenient than the reference and the property makes no claim: CR characters, leading zeros or '+' on the number, lines longer than 4000 bytes.",
+        "technique": "property-based round-trip + differential testing against a reference parser (rapid; go native fuzzing in thorough)",
+        "assumptions": ["reference parser written from c2sp.org/tlog-witness add-checkpoint body grammar"],
+        "parts": {
+            "body": {"bin": "bastion", "run": "TestC11Body", "checks": {"quick": 6000, "thorough": 800000}, "shards": {"quick": 4, "thorough": 16}},
+            "proof": {"bin": "bastion", "run": "TestC11Proof", "checks": {"quick": 3000, "thorough": 400000}, "shards": {"quick": 2, "thorough": 16}},
+            "known": {"bin": "bastion", "run": "TestC11Known", "kind": "plain"},
+        },
+    },
+    "C10": {
+        "level": "exploration",
+        "level_text": "Generated request sequences through the real add-checkpoint handler (constructed exactly as FeedBastion constructs it, behind the 16 KiB MaxBytesHandler) with a real witness behind it; a reference model gives the expected status/Content-Type/body for every verdict class and malformed body, 200 bodies must verify under the witness's published cosignature key over the submitted text, state may change only on 200; separate burst test gives sound bounds for the rate limiter and shows limited requests are never processed. End-to-end variant over TLS1.3+h2 to a stub bastion in the thorough tier.",
+        "level_note": "In-process part reaches the unexported handler from an in-package overlay test; Content-Type is asserted only where the protocol fixes it (stale 409).",
+        "technique": "property-based model-based testing of an HTTP handler (rapid histories vs reference model)",
+        "assumptions": HIST_ASSUME,
+        "parts": {
+            "seq": {"bin": "bastion", "run": "TestC10Seq", "checks": {"quick": 500, "thorough": 48000}, "shards": {"quick": 4, "thorough": 16}},
+            "rate": {"bin": "bastion", "run": "TestC10Rate", "checks": {"quick": 150, "thorough": 4000}, "shards": {"quick": 1, "thorough": 4}},
+            "known": {"bin": "bastion", "run": "TestC10Known", "kind": "plain"},
+        },
+    },
 }
 
 # properties not (yet) claimed: id -> reason
